@@ -9,6 +9,7 @@
 //! Mutants caught (tools/mutant_run.sh E <patch> C06 quick):
 //!   mutants/C06-no-uid-check.diff       (issuer/subject unique-ID branch removed)
 //!   mutants/C06-any-eku-allowed.diff    (anyExtendedKeyUsage no longer rejected)
+//!   /tmp/seed-C06/OUT/patch.diff        (independently seeded: RSA size test counts modulus bytes; caught by key-rsa2047)
 
 use std::sync::{Arc, Mutex};
 
@@ -32,6 +33,8 @@ const RULES: &[(&str, &str)] = &[
     ("sig-ecdsa-sha1", "sig"),
     ("key-p192", "key"),
     ("key-rsa1024", "key"),
+    ("key-rsa2047", "key"),
+    ("key-rsa2040", "key"),
     ("issuer-uid", "iuid"),
     ("subject-uid", "suid"),
     ("ku-absent", "ku"),
@@ -71,6 +74,11 @@ enum Ts {
     AfterNa,
     /// token minted by `openssl ts -reply` (genTime = now)
     Cli,
+    /// kit tokens exactly at / one second outside the validity boundaries
+    NbMinus1,
+    AtNb,
+    AtNa,
+    NaPlus1,
 }
 impl Ts {
     fn name(self) -> &'static str {
@@ -80,10 +88,14 @@ impl Ts {
             Ts::BeforeNb => "before-notBefore",
             Ts::AfterNa => "after-notAfter",
             Ts::Cli => "cli-now",
+            Ts::NbMinus1 => "notBefore-1s",
+            Ts::AtNb => "at-notBefore",
+            Ts::AtNa => "at-notAfter",
+            Ts::NaPlus1 => "notAfter+1s",
         }
     }
     fn from(s: &str) -> Ts {
-        [Ts::None, Ts::In, Ts::BeforeNb, Ts::AfterNa, Ts::Cli].into_iter().find(|t| t.name() == s).unwrap_or(Ts::None)
+        [Ts::None, Ts::In, Ts::BeforeNb, Ts::AfterNa, Ts::Cli, Ts::NbMinus1, Ts::AtNb, Ts::AtNa, Ts::NaPlus1].into_iter().find(|t| t.name() == s).unwrap_or(Ts::None)
     }
 }
 
@@ -115,6 +127,8 @@ fn apply(rule: &str, p: &mut Plan, now: i64) {
         }
         "key-p192" => p.ee_kind = KeyKind::P192,
         "key-rsa1024" => p.ee_kind = KeyKind::Rsa1024,
+        "key-rsa2047" => p.ee_kind = KeyKind::Rsa2047,
+        "key-rsa2040" => p.ee_kind = KeyKind::Rsa2040,
         "issuer-uid" => p.ee.issuer_uid = Some(vec![0x11, 0x22, 0x33]),
         "subject-uid" => p.ee.subject_uid = Some(vec![0x44, 0x55]),
         "ku-absent" => p.ee.key_usage = None,
@@ -173,8 +187,8 @@ impl Case {
         let validity = if has("expired") {
             // window [now-30d, now-1d]
             match self.ts {
-                Ts::In => false,
-                _ => true, // none / cli (= now), after-notAfter, before-notBefore
+                Ts::In | Ts::AtNb | Ts::AtNa => false, // the validity period includes both end points (RFC 5280 4.1.2.5)
+                _ => true, // none / cli (= now), after-notAfter, before-notBefore, one second outside
             }
         } else if has("not-yet-valid") {
             true // none / cli (= now) / before-notBefore; "in" is never generated for it
@@ -218,6 +232,10 @@ fn gen_time_for(c: &Case, h: &Hierarchy, now: i64) -> i64 {
         }
         Ts::BeforeNb => nb - DAY,
         Ts::AfterNa => now - 3600,
+        Ts::NbMinus1 => nb - 1,
+        Ts::AtNb => nb,
+        Ts::AtNa => na,
+        Ts::NaPlus1 => na + 1,
         _ => now,
     }
 }
@@ -321,7 +339,8 @@ fn judge(run: &Run, c: &Case, ctx_name: &str, o: &Result<Obs, String>) {
                 format!("conforming certificate [{}] (time-stamp: {}) is flagged: state {} codes {:?}", c.label(), c.ts.name(), o.state, o.pick(&["signingCredential", "timeStamp"])),
                 case,
             );
-        } else if !o.ok_state() {
+        } else if !o.ok_state() && !matches!(c.ts, Ts::AtNb | Ts::AtNa) {
+            // (at the exact end points OpenSSL's chain check may already call the certificate out of date; only the profile codes are judged there)
             // not a verdict of this property: the seed itself is broken
             kit::ev::machinery(format!("C06: conforming control {id} does not read back Valid/Trusted: {} {:?}", o.state, o.codes));
         }
@@ -421,7 +440,7 @@ fn cases(run: &Run) -> Vec<Case> {
     for (rule, group) in RULES {
         for &kind in &kinds {
             let tss: &[Ts] = match *rule {
-                "expired" => &[Ts::None, Ts::In, Ts::BeforeNb, Ts::AfterNa, Ts::Cli],
+                "expired" => &[Ts::None, Ts::In, Ts::BeforeNb, Ts::AfterNa, Ts::Cli, Ts::NbMinus1, Ts::AtNb, Ts::AtNa, Ts::NaPlus1],
                 "not-yet-valid" => &[Ts::None, Ts::BeforeNb, Ts::Cli],
                 _ => &[Ts::None, Ts::In],
             };
